@@ -174,6 +174,7 @@ func runC16Program(ctx context.Context, w *ATWorld, db *sql.DB, sc *ATSchema, ta
 func runC16(c *Ctx) {
 	runC16Mixed(c)
 	w := GetATWorld()
+	runC16WaitOptions(c, w)
 	xa := w.OpenXA()
 	rng := NewRng(c.Seed)
 	n := c.Budget(200, 20000)
